@@ -99,7 +99,7 @@ Ltac res_cases :=
   match goal with
   | |- context [match ?r with Ok _ => _ | Panic => _ end] =>
       lazymatch r with
-      | qadd _ _ _ => idtac | qsub _ _ _ => idtac | iadd _ _ => idtac | isub _ _ => idtac | uadd _ _ _ => idtac | usub _ _ _ => idtac | ineg _ => idtac
+      | qadd _ _ _ => idtac | qsub _ _ _ => idtac | iadd _ _ => idtac | isub _ _ => idtac | imul _ _ => idtac | idiv _ _ => idtac | uadd _ _ _ => idtac | usub _ _ _ => idtac | ineg _ => idtac
       | assert_ok _ _ _ => idtac | assert_not_ok _ _ _ => idtac | snew _ _ _ _ => idtac
       end;
       let E := fresh "E" in destruct r eqn:E; cbn; unfold arith_i; cbn; try rewrite E; try reflexivity
@@ -146,6 +146,9 @@ Ltac mr_split :=
       end
   end.
 Ltac mr_exec := unfold run_fn; repeat (mr_norm; mr_split); mr_norm; try reflexivity.
+(* the same, but a goal whose two sides have become syntactically equal is closed at once instead of being split further
+   (used with symbolic containers [MOpt] / [MOutS] for parts of the state that the body never inspects) *)
+Ltac mr_exec2 := unfold run_fn; repeat (mr_norm; first [lazymatch goal with |- ?x = ?x => reflexivity end | mr_split]); mr_norm; try reflexivity.
 
 (* case analysis on the structure of the inputs and of the state (never on numbers, quantities, time stamps): after it
    the evaluator runs without meeting a value whose constructor it does not know *)
